@@ -117,6 +117,7 @@ type chainStep struct {
 
 func checkC14(c *Ctx) {
 	r := c.R
+	r.Rule("R14.7", "file, line and function are reported under their own keys: wherever a package function hands its parameters on to a package function with same-named parameters (key prefix / key name of the caller sub-fields, skip counts, frames), each goes to its namesake; a same-typed pair passed crosswise is a violation")
 	r.Rule("R14.1", "frame accounting: for every static call chain P -> ... -> F from an exported function P of package slog to a function F that captures the program counter, the constant-propagated skip must equal the chain length so that the captured frame is P's caller: getpc(k, extra) needs k = d+2 and runtime.Callers(n, ...) needs n = d+2 (+extra), d = number of calls between P and F; getpc itself must call runtime.Callers(skip+extra+1) and return element 0")
 	r.Rule("R14.2", "standard-library depth: for the log/slog adapter and the std log bridge the chain continues in GOROOT source; the depth from every exported log/slog.Logger / log.Logger entry point to the Handler.Handle / Writer.Write interface call is computed from the loaded standard library and must match the adapter's constant")
 	r.Rule("R14.3", "the user's extra skip: the extra operand at every capture site is the extraFrames of the logger that emits (or its Skip()), and SetSkip/WithSkip store their parameter to that field")
@@ -140,6 +141,13 @@ func checkC14(c *Ctx) {
 		c14Frames(c, p, m)
 		c14Flow(c, p, m)
 		c14FuncName(c, p)
+		var slogFns []*ssa.Function
+		for _, fn := range p.RepoFuncs() {
+			if fn.Pkg == p.Slog {
+				slogFns = append(slogFns, fn)
+			}
+		}
+		namedArgsInPlace(c, p, slogFns, "R14.7")
 		c14PrintDecision(c, p, m)
 		c09Globals(c, p, m)
 		packageNamesakes(c, p, "R10.8")
@@ -1173,6 +1181,9 @@ func c14PrintDecision(c *Ctx, p *Prog, m *Model) {
 					case cal != nil && len(cal.Params) == 0 && cal.Pkg == p.Slog && len(cal.Blocks) == 1:
 						// a parameterless predicate over the flags word
 					case cal != nil && cal.Pkg == p.Slog && allBytesWhite(cal):
+					case cal != nil && cal.Pkg == p.Slog && isBlankRequestPredicate(m, cal):
+					case modeConstOf(x, Mode{}, 0) != nil:
+						// a mode-classifying helper over the two mode bits
 					default:
 						bad = "the result of " + x.Common().String()
 					}
